@@ -305,6 +305,31 @@ def build(
     functions_tags_folder = (
         output_folder / "data" / "minecraft" / "tags" / function_folder
     )
+    load_tag = functions_tags_folder / "load.json"
+    tick_tag = functions_tags_folder / "tick.json"
+
+    def merged_func_tag(tag: Path) -> dict[str, Any]:
+        """
+        Read the function tag file this build adds its own entry to, i.e. what `tag`
+        will hold once the previous output is deleted and #copy is done
+
+        :param tag: Path to minecraft function tag file in the output
+        :return: Content of function tag file in dictionary
+        """
+        if header.copy is not None:
+            copied_tag = header.copy / tag.relative_to(output_folder)
+            if copied_tag.is_file():
+                return read_func_tag(copied_tag, config)
+        if is_delete and not any(
+            static in tag.resolve().parents for static in header.statics
+        ):
+            return {"values": []}
+        return read_func_tag(tag, config)
+
+    # A function tag that cannot be parsed stops the build (JMCBuildError):
+    # find that out before anything is deleted or written.
+    load_json = {"values": []} if _is_virtual else merged_func_tag(load_tag)
+    tick_json = {"values": []} if _is_virtual else merged_func_tag(tick_tag)
 
     if is_delete:
         statics = header.statics
@@ -353,11 +378,6 @@ def build(
 
     if not _is_virtual:
         functions_tags_folder.mkdir(exist_ok=True, parents=True)
-    load_tag = functions_tags_folder / "load.json"
-    tick_tag = functions_tags_folder / "tick.json"
-
-    load_json = {"values": []} if _is_virtual else read_func_tag(load_tag, config)
-    tick_json = {"values": []} if _is_virtual else read_func_tag(tick_tag, config)
 
     load_json["values"].append(f"{config.namespace}:{DataPack.load_name}")
     if _is_virtual:
